@@ -494,7 +494,7 @@ class BinaryProperty(Property):
 
     def clean(self, value, allow_custom=False):
         try:
-            base64.b64decode(value)
+            base64.b64decode(value, validate=True)
         except (binascii.Error, TypeError):
             raise ValueError("must contain a base64 encoded string")
         return value, False
